@@ -6,6 +6,8 @@ from typing import final
 
 from mypy_extensions import mypyc_attr
 
+from pyjelly.errors import JellyConformanceError
+
 
 @mypyc_attr(allow_interpreted_subclasses=True)
 @final
@@ -32,6 +34,10 @@ class Lookup:
         self.data = OrderedDict[str, int]()
         self.max_size = max_size
         self._evicting = False
+        # Serial number of the statement that last referenced each index, see `insert`.
+        # Stays 0 (no tracking) until the owner starts counting statements.
+        self.used_by = [0] * (max_size + 1)
+        self.statement = 0
 
     def make_last_to_evict(self, key: str) -> None:
         self.data.move_to_end(key)
@@ -43,6 +49,14 @@ class Lookup:
         assert key not in self.data, f"key {key!r} already present"
         if self._evicting:
             _, index = self.data.popitem(last=False)
+            if self.statement and self.used_by[index] == self.statement:
+                # All entry rows of a statement precede the statement row, so the entry
+                # about to be overwritten is still referenced by the current statement.
+                msg = (
+                    f"lookup of size {self.max_size} cannot hold all the entries "
+                    "a single statement needs"
+                )
+                raise JellyConformanceError(msg)
             self.data[key] = index
         else:
             index = len(self.data) + 1
@@ -108,6 +122,7 @@ class LookupEncoder:
     def encode_term_index(self, value: str) -> int:
         self.lookup.make_last_to_evict(value)
         current_index = self.lookup.data[value]
+        self.lookup.used_by[current_index] = self.lookup.statement
         self.last_reused_index = current_index
         return current_index
 
